@@ -3,5 +3,5 @@ CONSTANTS
   Defects = {"PfcRouteFallsBackToVhost"}
   Big = FALSE
 SPECIFICATION Spec
-INVARIANTS HdrImplIsSem HdrLevelOrder OmittedAppends HdrVarResolved PathImplIsSem PrefixWins PathRuleSwapsWholePath HostImplIsSem RedirImplIsSem PfcImplIsSem TmoImplIsSem TryBelowGlobal
+INVARIANTS HdrImplIsSem HdrLevelOrder OmittedAppends HdrVarResolved PathImplIsSem PrefixWins PathRuleSwapsWholePath HostImplIsSem RedirImplIsSem HopImplIsSem HopBothRewrite PfcImplIsSem TmoImplIsSem TryBelowGlobal
 CHECK_DEADLOCK FALSE
